@@ -43,13 +43,13 @@ const id = "C06"
 // model level, pair menus).
 func streamConfig(quick bool) certs.Config {
 	if quick {
-		return certs.Config{ModelDepth: 2, Shards: 96, AllSeeds: true, Bytes: certs.BytesQuickList}
+		return certs.Config{ModelDepth: 2, Shards: 96, AllSeeds: true, Bytes: certs.BytesQuickList, Bundles: 2}
 	}
 	return certs.DefaultConfig(false)
 }
 
 func mkUnits(quick bool) []certs.Unit {
-	return certs.Units(streamConfig(quick), certs.CertSeeds(certs.RepoDir()))
+	return certs.UnitsWith(streamConfig(quick), certs.CertSeeds(certs.RepoDir()), ctBundleElems())
 }
 
 func main() {
@@ -83,6 +83,10 @@ func shortClass(s string) string {
 
 func (h *handler) Item(x *certs.ItemCtx) {
 	a := x.A
+	if x.U.IsBundle() {
+		bundleItem(x)
+		return
+	}
 	var c *x509.Certificate
 	var err error
 	if p, msg, site := ev.Try(func() { c, err = x509.ParseCertificate(x.DER) }); p {
@@ -97,124 +101,160 @@ func (h *handler) Item(x *certs.ItemCtx) {
 	}
 	a.Accepted++
 	a.Outcome("accept", 1)
-	var nEval int64
-	bad := func(sig, detail string) {
-		x.Violation(sig, "ParseCertificate", detail)
-		a.Outcome("VIOLATION: "+sig, 1)
+	j := &judge{x: x, entry: "ParseCertificate", count: true}
+	s, walked := j.certificate(c, x.DER)
+	if walked && tbsEntryApplies(x) {
+		j.tbsEntry(x.DER, s, c)
 	}
-	eq := func(field string, got, want []byte) {
-		nEval++
-		if !bytes.Equal(got, want) {
-			bad(field+" is not the corresponding sub-encoding of the input", fmt.Sprintf("got %s want %s", hexs(got), hexs(want)))
-		}
-	}
-
-	// --- fingerprints of the whole input need no walker
-	eq("Raw", c.Raw, x.DER)
-	m5 := md5.Sum(x.DER)
-	s1 := sha1.Sum(x.DER)
-	s256 := sha256.Sum256(x.DER)
-	fp := func(field string, got, want []byte) {
-		nEval++
-		if !bytes.Equal(got, want) {
-			bad(field+" is not the named hash of the named bytes", fmt.Sprintf("got %x want %x", got, want))
-		}
-	}
-	fp("FingerprintMD5", c.FingerprintMD5, m5[:])
-	fp("FingerprintSHA1", c.FingerprintSHA1, s1[:])
-	fp("FingerprintSHA256", c.FingerprintSHA256, s256[:])
-
-	s, why := walk(x.DER)
-	if why != "" {
-		a.Outcome("walker: unsupported encoding ("+why+")", 1)
-		a.Count("evals", nEval)
-		return
-	}
-	eq("RawTBSCertificate", c.RawTBSCertificate, s.tbs)
-	eq("RawIssuer", c.RawIssuer, s.issuer)
-	eq("RawSubject", c.RawSubject, s.subject)
-	eq("RawSubjectPublicKeyInfo", c.RawSubjectPublicKeyInfo, s.spki)
-	h256 := func(parts ...[]byte) []byte {
-		hh := sha256.New()
-		for _, p := range parts {
-			hh.Write(p)
-		}
-		return hh.Sum(nil)
-	}
-	fp("SPKIFingerprint", c.SPKIFingerprint, h256(s.spki))
-	fp("TBSCertificateFingerprint", c.TBSCertificateFingerprint, h256(s.tbs))
-	fp("SPKISubjectFingerprint", c.SPKISubjectFingerprint, h256(s.spki, s.subject))
-	nEval++
-	if len(c.FingerprintNoCT) != sha256.Size {
-		bad("FingerprintNoCT is not a SHA-256 value", fmt.Sprintf("%d bytes", len(c.FingerprintNoCT)))
-	}
-
-	// --- version
-	if s.versionOK {
-		nEval++
-		if int64(c.Version) != s.version+1 {
-			bad("Version is not the encoded version plus one", fmt.Sprintf("encoded %d, Version %d", s.version, c.Version))
-		}
-		a.Outcome(fmt.Sprintf("version: encoded %d", s.version), 1)
-	} else {
-		a.Outcome("version: encoded INTEGER wider than 8 bytes (not judged)", 1)
-	}
-
-	// --- validity period
-	nEval++
-	okOwn, sat := validityOK(c.ValidityPeriod, c.NotBefore, c.NotAfter)
-	if !okOwn {
-		bad("ValidityPeriod is not NotAfter-NotBefore in seconds", fmt.Sprintf("ValidityPeriod=%d NotBefore=%v NotAfter=%v", c.ValidityPeriod, c.NotBefore.UTC(), c.NotAfter.UTC()))
-	}
-	if nb, na, ok := stdValidity(s.validity); ok {
-		nEval++
-		if okStd, _ := validityOK(c.ValidityPeriod, nb, na); !okStd {
-			bad("ValidityPeriod is not the difference of the encoded times as read by encoding/asn1", fmt.Sprintf("ValidityPeriod=%d, encoding/asn1 reads %v .. %v", c.ValidityPeriod, nb.UTC(), na.UTC()))
-		}
-		if sat {
-			a.Outcome("validity: span beyond time.Duration (exact or saturated value accepted)", 1)
-			if int64(c.ValidityPeriod) != na.Unix()-nb.Unix() {
-				a.Outcome("validity: ValidityPeriod is the saturated value, not the exact difference", 1)
-			}
-		} else {
-			a.Outcome("validity: judged against encoding/asn1", 1)
-		}
-	} else {
-		a.Outcome("validity: times not readable by encoding/asn1 (judged against NotBefore/NotAfter only)", 1)
-	}
-
-	// --- self-signed
-	same := bytes.Equal(s.issuer, s.subject)
-	nEval++
-	if c.SelfSigned && !same {
-		bad("SelfSigned=true although issuer and subject differ", "")
-	}
-	if !same {
-		a.Outcome("selfsigned: issuer!=subject -> false", 1)
-	} else {
-		v, reason := selfVerifies(s)
-		switch v {
-		case unjudged:
-			a.Outcome("selfsigned: issuer==subject, not judged: "+reason, 1)
-		case verifies:
-			nEval++
-			a.Outcome("selfsigned: issuer==subject, signature verifies -> true", 1)
-			if !c.SelfSigned {
-				bad("SelfSigned=false although issuer equals subject and the signature verifies under the certificate's own key", "algorithm "+hexs(s.innerAlg))
-			}
-		case fails:
-			nEval++
-			a.Outcome("selfsigned: issuer==subject, signature does not verify -> false", 1)
-			if c.SelfSigned {
-				bad("SelfSigned=true although the signature does not verify under the certificate's own key", "algorithm "+hexs(s.innerAlg))
-			}
-		}
-	}
-	a.Count("evals", nEval)
+	a.Count("evals", j.nEval)
 	a.Count("ops", 1)
 	if x.Idx == 0 {
 		x.Sample(map[string]any{"unit": x.U.Name, "desc": x.Desc, "version": c.Version, "self_signed": c.SelfSigned, "validity_period": c.ValidityPeriod,
 			"spki_subject_fingerprint": hex.EncodeToString(c.SPKISubjectFingerprint)})
+	}
+}
+
+// judge compares the metadata of one parsed certificate with the oracle.
+// entry names the exported function that produced it; for entry points other
+// than ParseCertificate the violation signatures carry the entry point and the
+// outcome classes are not counted again (count=false).
+type judge struct {
+	x     *certs.ItemCtx
+	entry string
+	count bool
+	nEval int64
+}
+
+func (j *judge) bad(sig, detail string) {
+	if j.entry != "ParseCertificate" {
+		sig = "[" + j.entry + "] " + sig
+	}
+	j.x.Violation(sig, j.entry, detail)
+	j.x.A.Outcome("VIOLATION: "+sig, 1)
+}
+
+func (j *judge) outcome(class string) {
+	if j.count {
+		j.x.A.Outcome(class, 1)
+	}
+}
+
+func (j *judge) eq(field string, got, want []byte) {
+	j.nEval++
+	if !bytes.Equal(got, want) {
+		j.bad(field+" is not the corresponding sub-encoding of the input", fmt.Sprintf("got %s want %s", hexs(got), hexs(want)))
+	}
+}
+
+func (j *judge) fp(field string, got, want []byte) {
+	j.nEval++
+	if !bytes.Equal(got, want) {
+		j.bad(field+" is not the named hash of the named bytes", fmt.Sprintf("got %x want %x", got, want))
+	}
+}
+
+func h256(parts ...[]byte) []byte {
+	hh := sha256.New()
+	for _, p := range parts {
+		hh.Write(p)
+	}
+	return hh.Sum(nil)
+}
+
+// certificate judges c, which an entry point returned for the complete certificate der.
+func (j *judge) certificate(c *x509.Certificate, der []byte) (s skeleton, walked bool) {
+	// --- fingerprints of the whole input need no walker
+	j.eq("Raw", c.Raw, der)
+	m5 := md5.Sum(der)
+	s1 := sha1.Sum(der)
+	s256 := sha256.Sum256(der)
+	j.fp("FingerprintMD5", c.FingerprintMD5, m5[:])
+	j.fp("FingerprintSHA1", c.FingerprintSHA1, s1[:])
+	j.fp("FingerprintSHA256", c.FingerprintSHA256, s256[:])
+
+	s, why := walk(der)
+	if why != "" {
+		j.outcome("walker: unsupported encoding (" + why + ")")
+		return s, false
+	}
+	j.tbsFields(c, s)
+
+	// --- self-signed
+	same := bytes.Equal(s.issuer, s.subject)
+	j.nEval++
+	if c.SelfSigned && !same {
+		j.bad("SelfSigned=true although issuer and subject differ", "")
+	}
+	if !same {
+		j.outcome("selfsigned: issuer!=subject -> false")
+	} else {
+		v, reason := selfVerifies(s)
+		switch v {
+		case unjudged:
+			j.outcome("selfsigned: issuer==subject, not judged: " + reason)
+		case verifies:
+			j.nEval++
+			j.outcome("selfsigned: issuer==subject, signature verifies -> true")
+			if !c.SelfSigned {
+				j.bad("SelfSigned=false although issuer equals subject and the signature verifies under the certificate's own key", "algorithm "+hexs(s.innerAlg))
+			}
+		case fails:
+			j.nEval++
+			j.outcome("selfsigned: issuer==subject, signature does not verify -> false")
+			if c.SelfSigned {
+				j.bad("SelfSigned=true although the signature does not verify under the certificate's own key", "algorithm "+hexs(s.innerAlg))
+			}
+		}
+	}
+	return s, true
+}
+
+// tbsFields: everything that is a function of the TBSCertificate alone.
+func (j *judge) tbsFields(c *x509.Certificate, s skeleton) {
+	j.eq("RawTBSCertificate", c.RawTBSCertificate, s.tbs)
+	j.eq("RawIssuer", c.RawIssuer, s.issuer)
+	j.eq("RawSubject", c.RawSubject, s.subject)
+	j.eq("RawSubjectPublicKeyInfo", c.RawSubjectPublicKeyInfo, s.spki)
+	j.fp("SPKIFingerprint", c.SPKIFingerprint, h256(s.spki))
+	j.fp("TBSCertificateFingerprint", c.TBSCertificateFingerprint, h256(s.tbs))
+	j.fp("SPKISubjectFingerprint", c.SPKISubjectFingerprint, h256(s.spki, s.subject))
+	j.nEval++
+	if len(c.FingerprintNoCT) != sha256.Size {
+		j.bad("FingerprintNoCT is not a SHA-256 value", fmt.Sprintf("%d bytes", len(c.FingerprintNoCT)))
+	}
+
+	// --- version
+	if s.versionOK {
+		j.nEval++
+		if int64(c.Version) != s.version+1 {
+			j.bad("Version is not the encoded version plus one", fmt.Sprintf("encoded %d, Version %d", s.version, c.Version))
+		}
+		j.outcome(fmt.Sprintf("version: encoded %d", s.version))
+	} else {
+		j.outcome("version: encoded INTEGER wider than 8 bytes (not judged)")
+	}
+
+	// --- validity period
+	j.nEval++
+	okOwn, sat := validityOK(c.ValidityPeriod, c.NotBefore, c.NotAfter)
+	if !okOwn {
+		j.bad("ValidityPeriod is not NotAfter-NotBefore in seconds", fmt.Sprintf("ValidityPeriod=%d NotBefore=%v NotAfter=%v", c.ValidityPeriod, c.NotBefore.UTC(), c.NotAfter.UTC()))
+	}
+	if nb, na, ok := stdValidity(s.validity); ok {
+		j.nEval++
+		if okStd, _ := validityOK(c.ValidityPeriod, nb, na); !okStd {
+			j.bad("ValidityPeriod is not the difference of the encoded times as read by encoding/asn1", fmt.Sprintf("ValidityPeriod=%d, encoding/asn1 reads %v .. %v", c.ValidityPeriod, nb.UTC(), na.UTC()))
+		}
+		if sat {
+			j.outcome("validity: span beyond time.Duration (exact or saturated value accepted)")
+			if int64(c.ValidityPeriod) != na.Unix()-nb.Unix() {
+				j.outcome("validity: ValidityPeriod is the saturated value, not the exact difference")
+			}
+		} else {
+			j.outcome("validity: judged against encoding/asn1")
+		}
+	} else {
+		j.outcome("validity: times not readable by encoding/asn1 (judged against NotBefore/NotAfter only)")
 	}
 }
 
@@ -223,7 +263,8 @@ func run(c *ev.Ctx) {
 	c.Assume("the DER walker (one-byte tags, definite lengths) and the verification of self-signatures with crypto/rsa, crypto/ecdsa, crypto/dsa, crypto/ed25519 (GODEBUG rsa1024min=0) are the reference",
 		"SelfSigned is compared only where the standard library can judge: inner = outer AlgorithmIdentifier, no unused bits in the signature, an algorithm OID of RFC 3279/4055/5758/8410 (RSA-PSS only with the three canonical parameter sets), a key that crypto/x509.ParsePKIXPublicKey accepts, DSA subgroup size a multiple of 8 bits; SelfSigned => issuer==subject is checked always",
 		"ValidityPeriod: spans beyond +-2^63 ns (time.Duration) may be the exact difference or the saturated value (the statement is silent)",
-		"FingerprintNoCT of arbitrary (non-canonical) stream certificates is only required to be a SHA-256 value; the CT model uses canonical harness-made bases only, as the statement says")
+		"FingerprintNoCT of arbitrary (non-canonical) stream certificates is only required to be a SHA-256 value; the CT model uses canonical harness-made bases only, as the statement says; across entry points it must be the SAME value for the same DER (function of the bytes)",
+		"which inputs the other entry points accept is not judged (a bundle that ParseCertificates rejects although each element is accepted is counted); Raw, the whole-input fingerprints and SelfSigned of ParseTBSCertificate (no signature present) are counted, not judged; package ct/x509 is a separate copy outside the anchors of this property")
 
 	if c.Replay != nil {
 		replay(c)
@@ -235,13 +276,16 @@ func run(c *ev.Ctx) {
 	if err := certs.SaveSeeds(work+"/seeds.gob", seeds); err != nil {
 		c.Broken("cannot write the seed file: %v", err)
 	}
-	units := certs.Units(cfg, seeds)
+	units := certs.UnitsWith(cfg, seeds, ctBundleElems())
 	if cfg.ModelDepth >= 3 {
 		if got, want := certs.Level3Count(), xgen.CountAssignments(3)-xgen.CountAssignments(2); got != want {
 			c.Broken("level-3 units enumerate %d assignments, the model has %d", got, want)
 		}
 	}
-	c.Rule(certs.Describe(cfg, units) + ". Every accepted certificate (strict mode) is compared field by field with the oracle. " +
+	c.Rule(certs.Describe(cfg, units) + " (check-specific bundle elements: 4 canonical CT-model bases, each also with the poison appended and with an SCT list in front). Every accepted certificate (strict mode) is compared field by field with the oracle. " +
+		"ENTRY POINTS: for every bundle whose elements ParseCertificate accepts, EVERY certificate returned by x509.ParseCertificates(bundle) (each position), by JSONCertificateWithRaw.ParseRaw (each element, as a sub-slice of the bundle) and by CertPool.AppendCertsFromPEM (the bundle as PEM blocks; matched by Raw) " +
+		"must agree with ParseCertificate(same DER) — itself judged by the oracle — in Raw, RawTBSCertificate, RawIssuer, RawSubject, RawSubjectPublicKeyInfo, the seven fingerprints (MD5, SHA1, SHA256, NoCT, SPKI, SPKISubject, TBS), Version, ValidityPeriod and SelfSigned; " +
+		"for every accepted certificate of the model units and every unmutated seed, x509.ParseTBSCertificate(its TBSCertificate) must agree with ParseCertificate in the TBS-derived fields (RawTBSCertificate, RawIssuer, RawSubject, RawSubjectPublicKeyInfo, SPKI/SPKISubject/TBS/NoCT fingerprints, Version, ValidityPeriod). " +
 		"CT-placement model: 8 canonical harness-made base certificates (extension lists of length 0..4; Ed25519, RSA, P-256 keys; self-issued and CA-issued) x every insertion of {poison, SCT list, SCT list with 2 entries} at every position and of {poison and SCT list} at every ordered pair of positions, re-signed; FingerprintNoCT must equal the base's. " +
 		"distinct_nontrivial = accepted certificates")
 
@@ -310,6 +354,16 @@ func run(c *ev.Ctx) {
 	}
 	for _, s := range t.Samples {
 		c.Sample(s)
+	}
+	var nb int64
+	for k, v := range t.Hist {
+		if strings.HasPrefix(k, "bundle: ParseCertificates accepts") {
+			nb += v
+		}
+	}
+	c.Set("bundles_judged", nb)
+	if nb == 0 {
+		c.Incomplete("no bundle was accepted by ParseCertificates: the entry-point comparison did not run")
 	}
 	reentrantPhase(c)
 	c.Set("units", len(units))
